@@ -36,7 +36,13 @@ func c06LzRun(dir string, id int, c *c06Case, saved int64, jp *jobProvider, lg *
 	for _, s := range c.Segs {
 		content = append(content, c06Bytes(s)...)
 	}
-	path := filepath.Join(dir, fmt.Sprintf("z%d.log.lz4", id))
+	sub := dir
+	if id%3 == 1 {
+		// the letter w in the path must not matter (file.d asks lsof whether somebody WRITES the file)
+		sub = filepath.Join(dir, "www-logs")
+		_ = os.MkdirAll(sub, 0o755)
+	}
+	path := filepath.Join(sub, fmt.Sprintf("z%d.log.lz4", id))
 	f, err := os.Create(path)
 	if err != nil {
 		panic(err)
@@ -81,6 +87,9 @@ func c06LzRun(dir string, id int, c *c06Case, saved int64, jp *jobProvider, lg *
 	jp.jobsChan <- job
 	jp.jobsChan <- nil
 	w.work(rec, jp, c.B, lg)
+	for len(jp.jobsChan) > 0 { // a worker that gave up early leaves the rest of the queue behind
+		<-jp.jobsChan
+	}
 	want := []c06Call{}
 	for _, round := range c.Exp {
 		for _, e := range round {
@@ -103,6 +112,65 @@ func c06LzRun(dir string, id int, c *c06Case, saved int64, jp *jobProvider, lg *
 		return &c06LzMismatch{Kind: "lz4_calls_differ", Case: *c, Saved: saved, Want: want, Got: got}
 	}
 	return nil
+}
+
+// a compressed file that IS being written (the harness holds it open for writing) is followed, on the same worker, by an
+// ordinary file: whatever the worker decides about the first, the second must still be read
+func c06LzBeingWritten(dir string, jp *jobProvider, lg *zap.SugaredLogger) *c06LzMismatch {
+	p1 := filepath.Join(dir, "held.log.lz4")
+	f, err := os.Create(p1)
+	if err != nil {
+		panic(err)
+	}
+	zw := lz4.NewWriter(f)
+	_, _ = zw.Write([]byte("first\n"))
+	_ = zw.Close()
+	f.Close()
+	held, err := os.OpenFile(p1, os.O_WRONLY|os.O_APPEND, 0o644) // a writer that has not finished
+	if err != nil {
+		panic(err)
+	}
+	defer held.Close()
+	p2 := filepath.Join(dir, "plain.log")
+	if err := os.WriteFile(p2, []byte("second\n"), 0o644); err != nil {
+		panic(err)
+	}
+	r1, _ := os.Open(p1)
+	r2, _ := os.Open(p2)
+	defer r1.Close()
+	defer r2.Close()
+	j1 := &Job{file: r1, filename: p1, sourceID: pipeline.SourceID(2999001), mu: &sync.Mutex{}, mimeType: "application/x-lz4", isCompressed: true}
+	j2 := &Job{file: r2, filename: p2, sourceID: pipeline.SourceID(2999002), mu: &sync.Mutex{}}
+	jp.jobsMu.Lock()
+	jp.jobs[j1.sourceID], jp.jobs[j2.sourceID] = j1, j2
+	jp.jobsMu.Unlock()
+	defer func() {
+		jp.jobsMu.Lock()
+		delete(jp.jobs, j1.sourceID)
+		delete(jp.jobs, j2.sourceID)
+		jp.jobsMu.Unlock()
+		for _, j := range []*Job{j1, j2} {
+			if j.isDone {
+				jp.jobsDone.Dec()
+			}
+		}
+		for len(jp.jobsChan) > 0 {
+			<-jp.jobsChan
+		}
+	}()
+	w := &worker{}
+	rec := &c06Rec{}
+	jp.jobsChan <- j1
+	jp.jobsChan <- j2
+	jp.jobsChan <- nil
+	w.work(rec, jp, 64, lg)
+	for _, g := range rec.calls {
+		if g.Src == int(j2.sourceID) && g.Data == "second\n" {
+			return nil
+		}
+	}
+	return &c06LzMismatch{Kind: "worker_stops_at_compressed_file_being_written", Got: rec.calls,
+		Want: []c06Call{{Off: 7, Data: "second\n"}}}
 }
 
 func TestVerifC06Lz4(t *testing.T) {
@@ -174,6 +242,20 @@ func TestVerifC06Lz4(t *testing.T) {
 		}(wi)
 	}
 	wg.Wait()
+	{
+		ctl := metric.NewCtl("verif_c06lz_held", prometheus.NewRegistry(), 0, 0)
+		metrics := newMetricCollection(
+			ctl.RegisterCounter("w1", "h"), ctl.RegisterCounter("w2", "h"),
+			ctl.RegisterGauge("w3", "h"), ctl.RegisterGauge("w4", "h"),
+		)
+		lg := zap.NewNop().Sugar()
+		jp := NewJobProvider(&Config{}, metrics, lg)
+		jp.jobsChan = make(chan *Job, 4)
+		if mm := c06LzBeingWritten(dir, jp, lg); mm != nil {
+			mms = append(mms, mm)
+		}
+		executed++
+	}
 	b, _ := json.Marshal(map[string]interface{}{"executed": executed, "resumed": resumed, "mismatches": mms})
 	if err := os.WriteFile(out, b, 0o644); err != nil {
 		t.Fatal(err)
